@@ -53,6 +53,8 @@ func (r *Rng) Pick(xs ...int) int { return xs[r.Intn(len(xs))] }
 
 func (r *Rng) Pick2(xs ...string) string { return xs[r.Intn(len(xs))] }
 
+func (r *Rng) PickS(xs ...string) string { return xs[r.Intn(len(xs))] }
+
 func (r *Rng) PickU(xs ...uint64) uint64 { return xs[r.Intn(len(xs))] }
 
 func (r *Rng) Bytes(n int) []byte {
